@@ -669,6 +669,15 @@ class VF:
         if name in ('std::ops::Range', 'core::ops::Range'):
             f = {x['name']: self.to_term(self.ev(x['e'])) for x in n['fields']}
             return T.app('range', f['start'], f['end'])
+        if name in ('std::result::Result', 'std::option::Option', 'core::result::Result', 'core::option::Option'):
+            # Ok(x) / Some(x) are transparent value-wise (unwrap and `?` are aliases); the tag lives in is:* conditions
+            v = n['variant']
+            if v in ('Ok', 'Some') and len(n['fields']) == 1:
+                return self.ev(n['fields'][0]['e'])
+            if v == 'Err' and len(n['fields']) == 1:
+                return T.app('Err', self.to_term(self.ev(n['fields'][0]['e'])))
+            if v == 'None':
+                return T.sym('None')
         fields = sorted(n['fields'], key=lambda f: f['idx'])
         # evaluate in source order (as written), build in field order
         vals = {}
